@@ -81,6 +81,14 @@ let output ord cp o ps want =
       add (Printf.sprintf "grand %s|%s" (show_value g.b_total) (show_value g.b_disp));
       add (Printf.sprintf "nrows %d" (List.length rows))
     end;
+    if has "lay" then begin
+      let rows = get (bal_layout ord cp o ps) in
+      let rec nat_int = function O -> 0 | S n -> 1 + nat_int n in
+      List.iter (fun l ->
+          add (Printf.sprintf "lay %s|%d|%s" (name_of l.l_acct) (nat_int l.l_spacer) (name_of l.l_partial))) rows
+    end;
+    if has "lay" then
+      add (Printf.sprintf "layok %d" (if get (layout_ok ord cp o ps) then 1 else 0));
     if has "own" then begin
       (* account_t::amount of every account of the tree (pre-order) *)
       let m = get (mark (max_depth ps) ord cp o ps []) in
